@@ -41,6 +41,7 @@ TEMPLATES = [
     fn("enthaelt", [("l", TL(GT), False), ("x", GT, False)], TW, [{"k": "foreach", "v": "e", "t": GT, "idx": "", "in": ident("l"), "body": [if_(bin_("eq", ident("e"), ident("x")), [RET(lit(W(True)))])]}, RET(lit(W(False)))]),
     fn("ersetze_erstes", [("l", TL(GT), False), ("x", GT, False)], TL(GT), [setv(idx_lv(lvid("l"), zl(1)), ident("x")), RET(ident("l"))]),       # writes its by-value list parameter
     fn("verschachtelt", [("x", GT, False)], TL(GT), [RET(call("als_paar", [("a", call("identitaet", [("x", ident("x"))])), ("b", ident("x"))]))]),   # generic calling generics
+    fn("hinterstes", [("l", TL(GT), False)], GT, [RET(call("letztes", [("l", ident("l")), ("n", zl(1))]))]),      # a generic calling a self-recursive generic
     fn("vorgabe", [("x", GT, False)], GT, [var("d", GT, {"k": "std", "t": GT}, False), RET(ident("d"))]),
 ]
 # a generic body that names a type of its own module: the alias Wert (= Kommazahl) is private to the declaring module,
@@ -83,6 +84,7 @@ def cases(tier, rng):
             cs.append(Case("gen:halbiere:%s" % enc, gcall("halbiere", b, [("x", zl(7) if enc == "Z" else lit(K(7, 1)))]), TK))
         if lst:
             sl = [var("gl", TL(t), lst, False)]
+            cs.append(Case("gen:hinterstes:%s" % enc, gcall("hinterstes", b, [("l", ident("gl"))]), t, sl))      # before any direct instantiation of the recursive callee
             cs.append(Case("gen:erstes:%s" % enc, gcall("erstes", b, [("l", ident("gl"))]), t, sl))
             cs.append(Case("gen:laenge_von:%s" % enc, gcall("laenge_von", b, [("l", ident("gl"))]), TZ, sl))
             cs.append(Case("gen:letztes:%s" % enc, gcall("letztes", b, [("l", ident("gl")), ("n", zl(1))]), t, sl))
